@@ -200,6 +200,13 @@ def execute(program, solve=True, oracle=True, horizon=None, stop_before_main=Fal
                     model.DumpEquations()
                 elif st['what'] == 'loginfo':
                     model.LogInfo()
+                elif st['what'] == 'lookup':
+                    # looking a sector up by its code while the model is still being put together: it may not be
+                    # found yet (full codes are assigned by main()), and must leave nothing behind either way
+                    try:
+                        model.LookupSector(st.get('code', 'HH'))
+                    except KeyError:
+                        pass
                 else:
                     model.GetSectors()
                     c.GetSectors()
